@@ -8,6 +8,35 @@ use crate::rng::Rng;
 use crate::ser::{HoleMode, Ser};
 use std::io::BufRead;
 
+// `# expect: value 5` / `# expect: accepted` / `# expect: rejected` on the first line of a corpus file
+fn expectation(src: &str) -> Option<String> {
+    let first = src.lines().next()?.trim();
+    first.strip_prefix("# expect:").map(|s| s.trim().to_owned())
+}
+
+fn check_expectation(out: &mut Out, src: &str, origin: &str) {
+    let Some(exp) = expectation(src) else { return; };
+    let obs = crate::suite_programs::observe(src);
+    use crate::suite_programs::Obs;
+    let ok = match (&obs, exp.as_str()) {
+        (Obs::Rejected(_), "rejected") => true,
+        (Obs::Value(_) | Obs::Stuck(_) | Obs::Cap, "accepted") => true,
+        (Obs::Value(v), e) if e.starts_with("value ") => v.trim_matches('`') == &e[6..],
+        _ => false,
+    };
+    out.stat("corpus:expectations");
+    if !ok {
+        // a feature program with a known outcome: which property is hit depends on the direction
+        let (prop, kind) = match (&obs, exp.as_str()) {
+            (Obs::Rejected(_), _) => ("C05", "well-typed-feature-program-rejected"),
+            (_, "rejected") => ("C03", "ill-typed-feature-program-accepted"),
+            (Obs::Stuck(_), _) => ("C01", "feature-program-stuck"),
+            _ => ("C02", "feature-program-wrong-value"),
+        };
+        out.hit(prop, kind, src, &format!("{origin} expected `{exp}`, observed {obs:?}"));
+    }
+}
+
 pub fn check_source(out: &mut Out, names: &mut Ser, src: &str, origin: &str) {
     let mut tokens = vec![];
     let term = match front(src, &mut tokens) {
@@ -85,7 +114,9 @@ pub fn run(out: &mut Out, tier: &str, seed: u64) {
         files.sort();
         for p in files {
             if let Ok(src) = std::fs::read_to_string(&p) {
-                check_source(out, &mut names, &src, &format!("corpus:{}", p.file_name().unwrap().to_string_lossy()));
+                let origin = format!("corpus:{}", p.file_name().unwrap().to_string_lossy());
+                check_source(out, &mut names, &src, &origin);
+                check_expectation(out, &src, &origin);
                 out.stat("corpus-files");
             }
         }
